@@ -174,6 +174,59 @@ pub fn check(id: &str, tier: &str, seed: u64) -> Option<i32> {
                 vec![],
             ))
         }
+        "C06" => {
+            let cases = if thorough { 40_000 } else { 3000 };
+            let out = explore_generic(
+                || crate::sched::strategy(if thorough { 60 } else { 40 }, false),
+                cases,
+                seed,
+                if thorough { 1500 } else { 600 },
+                crate::sched::run,
+                crate::sched::nontrivial,
+                &crate::runner::load_known("C06"),
+                |c: &crate::sched::SchedCase| serde_json::to_value(c).unwrap_or(json!(null)),
+                300_000,
+            );
+            let mut code = 0;
+            let traces = out.hist.keys().filter(|k| k.starts_with("trace.")).count();
+            let mut extra = json!({"distinct_interleavings": traces});
+            let mut out = out;
+            out.hist.retain(|k, _| !k.starts_with("trace."));
+            if thorough && out.failure.is_none() {
+                // free-running stress with the same exact oracle (replay cannot be guaranteed to re-fail)
+                let st = explore_generic(
+                    || crate::sched::strategy(60, true),
+                    4000,
+                    seed ^ 0x5712e55,
+                    0,
+                    crate::sched::run,
+                    |_s: &crate::exec::Stats| true,
+                    &[],
+                    |c: &crate::sched::SchedCase| serde_json::to_value(c).unwrap_or(json!(null)),
+                    300_000,
+                );
+                extra["stress_iterations"] = json!(st.evaluations);
+                if let Some((case, f)) = &st.failure {
+                    let p = crate::generic::write_replay_generic("C06", "schedule-stress", case, f, json!({"note": "free-running stress: replay re-runs the workload but cannot force the interleaving"}));
+                    println!("FAILURE property=C06 (stress) : {}", f.what);
+                    println!("VIOLATION property=C06 replay={}", p.display());
+                    code = 1;
+                }
+            }
+            let c = finish_generic(
+                "C06",
+                "schedule",
+                tier,
+                seed,
+                "exploration",
+                "a generated workload (writer script of 10-40/60 inserts, deletes and batches; 1-2 reader scripts of point reads and range scans in both directions; a flusher doing rotate+flush; 1-3 compactors running Leveled with l0_threshold 1-2 and tiny targets; optionally a major_compact or drop_range thread) and a generated schedule string. Real threads, one baton: exactly one thread runs at a time, threads yield at every op boundary and at the feature-gated hook points inside lsm-tree (flush: after taking the memtable snapshot and before registering tables; compaction: on entry, after hiding the input tables, before committing; reads: after pinning the super version); the controller picks the next thread among those whose outer lock (flush lock / major-compaction RwLock) is free, by the next schedule byte, so a run is a pure function of (workload, schedule). Oracle: a reader takes S = the writer's own published counter and every get/range must equal the MVCC model at S; maintenance uses T=0 or T below every snapshot a reader holds; every call returns Ok, nothing panics; afterwards every acknowledged write is readable, the C07 structural audit passes, and drop+open yields the flushed state. Non-trivial = a context switch landed inside a flush/merge window AND a reader ran while tables were hidden. Distinct = hash of the case; distinct interleavings by yield trace are reported. Thorough adds free-running stress (same oracle, real parallelism).",
+                &["interleavings finer than the hook points are only reached by the thorough tier's free-running stress, whose failures can be re-run but not forced to re-fail", "ingestion and clear are not part of C06's thread set", "bounded sizes; not a proof"],
+                out,
+                extra,
+                vec![],
+            );
+            Some(c.max(code))
+        }
         _ => None,
     }
 }
@@ -247,6 +300,10 @@ pub fn replay(id: &str, path: &Path) -> Option<i32> {
         "C10" => {
             let case: crate::spec::Case = serde_json::from_value(v["case"].clone()).ok()?;
             Some(report(crate::corrupt::run(&case, true)))
+        }
+        "C06" => {
+            let case: crate::sched::SchedCase = serde_json::from_value(v["case"].clone()).ok()?;
+            Some(report(crate::sched::run(&case)))
         }
         _ => None,
     }
